@@ -85,31 +85,32 @@ def _first_diff(a, b, path=""):
     return "" if a == b else f"{path}: {a!r} vs {b!r}"
 
 
-def reset_isolation(d0: int, d1: int, s0: int, k: int = 1, kind: str = "switched", nmne: bool = True):
+def reset_isolation(d0: int, d1: int, s0: int, rs: int, k: int = 1, kind: str = "switched", nmne: bool = True):
     with concrete():
         quiet()
         used = _mk(kind, nmne)
         n_actions = len(used.agent.action_manager.action_map)
     acts = [d0, d1][:k]
-    assume(all_of(rng(s0, 0, n_actions - 1), *[rng(a, 0, n_actions - 1) for a in acts]))
+    assume(all_of(rng(s0, 0, n_actions - 1), rng(rs, 0, 3), *[rng(a, 0, n_actions - 1) for a in acts]))
     dirty = [pick_int(a, 0, n_actions - 1) for a in acts]
-    suffix = [pick_int(s0, 0, n_actions - 1), 0]
+    suffix = [pick_int(s0, 0, n_actions - 1), 0, 0, 0]
+    seed = pick([5, 0, 1, 2**31 - 1], rs)  # the seed the compared episode is started with (0 is a legal seed)
     with concrete():
         used.reset(seed=11)
         try:
             for a in dirty:
                 used.step(a)
                 used.step(0)
-            used.reset(seed=5)
+            used.reset(seed=seed)
             t_used = _trace(used, suffix)
             fresh = _mk(kind, nmne)
-            fresh.reset(seed=5)
+            fresh.reset(seed=seed)
             t_fresh = _trace(fresh, suffix)
         except Exception as e:
             fail(f"raised {type(e).__name__}: {str(e)[:300]}")
         d = _diff(t_used, t_fresh)
     cover("compared")
-    check(not d, lambda: f"after dirtying actions {dirty} and reset, suffix {suffix} differs from a fresh environment: {d}")
+    check(not d, lambda: f"after dirtying actions {dirty} and reset(seed={seed}), suffix {suffix} differs from a fresh environment reset with the same seed: {d}")
 
 
 def two_instances(a0: int, a1: int, pos: int, b_nmne: bool, b_low: int, kind: str = "switched"):
@@ -328,11 +329,14 @@ def _scheduled_body(path, n, step_each):
 HARNESSES = {
     "reset_isolation": {
         "fn": reset_isolation,
-        "quick": [{"fixed": {"k": 1, "kind": "switched", "s0": s}, "timeout": 280} for s in (0, 19, 23, 40)] + [{"fixed": {"k": 1, "kind": "routed", "s0": 0}, "timeout": 280}],
-        "thorough": [{"fixed": {"k": 1, "kind": kd, "s0": s}, "timeout": 1500} for kd in ("switched", "routed") for s in range(0, 54, 6)]
-        + [{"fixed": {"k": 2, "kind": "switched", "s0": 0, "d0": d}, "timeout": 1500} for d in (24, 37, 41, 39, 7, 44)],
+        "quick": [{"fixed": {"k": 1, "kind": "switched", "s0": s, "rs": 0}, "timeout": 280} for s in (0, 19, 23, 40)] + [{"fixed": {"k": 1, "kind": "routed", "s0": 0, "rs": 0}, "timeout": 280}]
+        # the seed of the compared episode solver-chosen in {5, 0, 1, 2^31-1}
+        + [{"fixed": {"k": 1, "kind": "switched", "s0": 0, "d0": d}, "timeout": 280} for d in (0, 19)],
+        "thorough": [{"fixed": {"k": 1, "kind": kd, "s0": s, "rs": 0}, "timeout": 1500} for kd in ("switched", "routed") for s in range(0, 54, 6)]
+        + [{"fixed": {"k": 2, "kind": "switched", "s0": 0, "d0": d, "rs": 0}, "timeout": 1500} for d in (24, 37, 41, 39, 7, 44)]
+        + [{"fixed": {"k": 1, "kind": "switched", "s0": 0, "rs": r}, "timeout": 1500} for r in (1, 2, 3)],
         "cover": ["compared"],
-        "bounds": {"quick": "k=1 dirtying action (every action of the map) then reset, suffix action in {do-nothing, app execute, file scan, os scan} + do-nothing", "thorough": "every sixth suffix action on both topologies; k=2 dirtying prefixes"},
+        "bounds": {"quick": "k=1 dirtying action (every action of the map) then reset(seed=5), suffix action in {do-nothing, app execute, file scan, os scan} + 3 do-nothing steps; dirtying action in {do-nothing, app execute} with the reset seed in {5, 0, 1, 2^31-1}", "thorough": "every sixth suffix action on both topologies; k=2 dirtying prefixes"},
     },
     "two_instances": {
         "fn": two_instances,
